@@ -52,6 +52,10 @@ def gen_history(rng, n=(5, 10), fixed_p3=False):
                     d = CROSS[s]
                 items.append(["copy", s, d])
                 tracked.append(d if not d.endswith("/") else d + s)
+                if s in CROSS and d == CROSS[s] and rng.random() < 0.6:
+                    # the two paths now have objects 0.<ext> side by side in ONE digest directory: committing one of them
+                    # again with --force replaces its own object and must leave the sibling alone
+                    items.append([rng.choice(["carryf", "trackf"]), [rng.choice([s, d])]])
         elif k < 0.75 and tracked:
             s = rng.choice([t for t in tracked if t in DESTS] or [None])
             if s:
